@@ -56,6 +56,20 @@ CHECKS['C06'] = (
     '32 GBaud / 50 GHz.',
     'DESIGN.md 3/C06')
 
+CHECKS['C03'] = (
+    'deviation-bounded enumeration of fibre configurations x complete enumeration of small combs (all typings, all input '
+    'permutations) against an independent scalar closed-form implementation evaluated over all sampling conventions',
+    'For every fibre within 2 (quick) / 3 (thorough) deviations of the base over 7 fibre parameters and every comb of the '
+    'comb alphabet (all typings of 1-4 channels from 3 channel types x 3 power patterns, bounded typings of 6/8 channels, '
+    'full-band combs) the real NliSolver.compute_nli and Fiber.__call__ are run; the per-channel NLI must lie inside the '
+    'envelope of the published closed form over the sampling conventions the paper leaves open, be non-negative, obey the '
+    'cube law, be monotone under +1 dB / an added channel, and be identical for every permutation of the supplied channels; '
+    'gamma at the reference frequency must be the configured value.',
+    'alpha(f) and beta2(f) are read from the fibre accessors; a change that stays inside the convention envelope (e.g. taking '
+    '|beta2| before instead of after the cut/pump average) is not distinguishable from a legitimate convention choice and is '
+    'not reported.',
+    'DESIGN.md 3/C03')
+
 ALL = [f'C{i:02d}' for i in range(1, 21)]
 NOT_BUILT_REASON = 'check not built yet in this round (planned, see DESIGN.md section 3); not claimed until it runs'
 
